@@ -15,6 +15,10 @@
 (* the simple Circuit methods these theorems rest on are regenerated from the source (translator T9)
    and proved equal to the model: keep those equality lemmas in this property's proof cone *)
 Require Cirbo.Proofs.CircuitCoreGen Cirbo.Proofs.CircuitCoreGen2.
+(* connect_circuit and its five wrappers (and top_sort, which they iterate) are regenerated from the source by translator T10 and proved equal to the
+   model these theorems are about (Properties/C02.v C02_algorithms_regenerated): keep those proofs in this
+   property's cone *)
+Require Cirbo.Proofs.CircuitAlgosGen Cirbo.Proofs.CircuitAlgosGen2 Cirbo.Proofs.CircuitAlgosGen3 Cirbo.Proofs.CircuitAlgosGenSum.
 Require Import Cirbo.Model.Base Cirbo.Model.Gate Cirbo.Model.Circuit Cirbo.Model.Eval Cirbo.Model.Sem
         Cirbo.Model.Connect Cirbo.Model.History Cirbo.Model.WF.
 Require Import Cirbo.Proofs.WFEmplace Cirbo.Proofs.WFConnect1 Cirbo.Proofs.WFConnect2 Cirbo.Proofs.WFStep Cirbo.Proofs.WFSound Cirbo.Proofs.SemConnectStruct
